@@ -7,13 +7,13 @@
 From Coq Require Import List NArith Bool.
 From Frugal Require Import Bytes Wire Skip Values Desc Spec Encode Decode Checks Tags State Bitset Alloc DescMap Conc LegacyDefs.
 From Frugal.gen Require Import Params.
-From Frugal.proofs Require Import GenParams GenTables SizeExact.
+From Frugal.proofs Require Import GenEncParams GenTables SizeExact.
 From Frugal.props Require Import Examples.
 Import ListNotations.
 
 (* a buffer of EncodedSize bytes is never outgrown: the encoder never has to reallocate *)
 Theorem C18_never_outgrows : forall env sid v,
-  params_ok = true -> tables_ok = true -> env_ok env = true -> has_type env (TStruct sid) v = true ->
+  enc_params_ok = true -> tables_ok = true -> env_ok env = true -> has_type env (TStruct sid) v = true ->
   len (append_struct env sid v) = encoded_size env sid v.
 Proof. intros. symmetry. apply size_exact; assumption. Qed.
 Print Assumptions C18_never_outgrows.
@@ -30,5 +30,5 @@ Print Assumptions C18_no_registration_work.
 
 (* the side conditions on the generated constants and tables that the theorems above assume hold
    for what the translator read from the sources of this run *)
-Theorem C18_side_conditions : params_ok = true /\ tables_ok = true.
-Proof. split; [exact params_ok_holds | exact tables_ok_holds]. Qed.
+Theorem C18_side_conditions : enc_params_ok = true /\ tables_ok = true.
+Proof. split; [exact enc_params_ok_holds | exact tables_ok_holds]. Qed.
